@@ -119,7 +119,7 @@ def or_fact_match(facts, alts):
 
 
 
-def compose(ctx, rep, module, dst, only):
+def compose(ctx, rep, module, dst, only, key_only=None):
     """run another property's rule module inside this check, keeping only the rule families matching `only`, renamed
     `<dst>.<family>`.  Composition is one level deep: a module that is itself being composed does not compose others."""
     if getattr(ctx, "_composing", 0) >= 1:
@@ -128,6 +128,6 @@ def compose(ctx, rep, module, dst, only):
     mod = importlib.import_module("rules." + module)
     ctx._composing = getattr(ctx, "_composing", 0) + 1
     try:
-        mod.run(ctx, SubReport(rep, module, dst, only=only))
+        mod.run(ctx, SubReport(rep, module, dst, only=only, key_only=key_only))
     finally:
         ctx._composing -= 1
